@@ -83,6 +83,9 @@ def classify_loops(prog, f):
                 k = None
                 if isinstance(v0, Inst) and v0.op == "add" and strip_casts(v0.operands[0], ("trunc", "zext", "sext")) is phi and isinstance(v0.operands[1], Const):
                     k = "up" if v0.operands[1].sv > 0 else "down"
+                elif isinstance(v0, Inst) and v0.op == "sub" and strip_casts(v0.operands[0], ("trunc", "zext", "sext")) is phi and isinstance(v0.operands[1], Const) \
+                        and v0.operands[1].v != 0:
+                    k = "down" if v0.operands[1].sv > 0 else "up"
                 elif isinstance(v0, Inst) and v0.op == "getelementptr" and v0.operands[0] is phi:
                     k = "ptr"
                 elif isinstance(v0, Inst) and v0.op in ("lshr", "ashr") and v0.operands[0] is phi and isinstance(v0.operands[1], Const) and v0.operands[1].v >= 1:
